@@ -7,6 +7,7 @@ mod sched;
 mod world;
 
 mod c14;
+mod c15;
 mod c18;
 mod c19;
 mod c20;
@@ -14,12 +15,14 @@ mod c29;
 mod c30;
 mod c31;
 mod c38;
+mod c39;
 
 fn main() {
     vcommon::quiet_panics();
     let args = vcommon::parse_args();
     let code = match args.id.as_str() {
         "C14" => c14::main(&args),
+        "C15" => c15::main(&args),
         "C18" => c18::main(&args),
         "C19" => c19::main(&args),
         "C20" => c20::main(&args),
@@ -27,6 +30,7 @@ fn main() {
         "C30" => c30::main(&args),
         "C31" => c31::main(&args),
         "C38" => c38::main(&args),
+        "C39" => c39::main(&args),
         other => vcommon::machinery_failure(&format!("zbm: unknown property id {other}")),
     };
     std::process::exit(code);
